@@ -94,7 +94,7 @@ print('REPRODUCED' if sorted(d for d in got if d[0] in ('W01', 'W02')) != sorted
 '''
 
 
-@harness(['C10'], 'supp.linter.lint + SourceScope.all_names [one never-read binding per kind and scope]',
+@harness(['C10', 'C02'], 'supp.linter.lint + SourceScope.all_names [one never-read binding per kind and scope]',
          bounded='18 binding kinds x 6 scope kinds (module, class body, function, method, nested function, function in a method), each with a '
                  'plain and an underscore identifier; 16 parameter / star-import / __future__ forms; 24 programs whose only read of a name stands in a default / annotation / decorator / base / keyword; 21 dotted-import, repeated-word import, locals() and global / nonlocal declaration programs; one binding per module')
 def unused_table(run):
@@ -180,6 +180,11 @@ def unused_table(run):
                 [('W01', 'Unused name: fn_', 3, 8)] if use.startswith('def fn_') else [('W01', 'Unused name: fn_', 3, 14)] if use.startswith('async def fn_') else
                 [('W01', 'Unused name: fn_', 4, 8)] if use.startswith('@os.register\ndef') else
                 [('W01', 'Unused name: K_', 3 if use.startswith('class') else 4, 10)] if 'class K_' in use else [], path)
+        # a value that branches (a walrus under and / or / if-else / a comparison chain) reads the binding its own statement is about to replace
+        for label, stmt in (('or', 'v_ = c_ or (w_ := v_)'), ('if-else', 'v_ = (w_ := v_) if c_ else (w_ := 2)'), ('and-annotated', 'v_: int = c_ and (w_ := v_)'),
+                            ('comparison-chain', 'v_ = c_ < c_ < (w_ := v_)'), ('tuple-target', 'v_, u_ = c_ or (w_ := v_), 1'), ('chained-targets', 'u_ = v_ = c_ or (w_ := v_)')):
+            one('rebinding-whose-branching-value-reads-the-old-binding[%s]' % label,
+                'def f_(c_):\n    v_ = 0\n    %s\n    return v_, locals()\n' % stmt, [], path)
         # locals() reads every local of the function, also one bound in several branches
         one('locals-reads-a-name-bound-in-two-branches', 'def f_(c_):\n    if c_:\n        unused_v = 1\n    else:\n        unused_v = 2\n    return locals()\n', [], path)
         one('locals-reads-a-name-bound-in-one-branch', 'def f_(c_):\n    if c_:\n        unused_v = 1\n    return locals()\n', [], path)
